@@ -1032,9 +1032,13 @@ class Interp:
         # evaluated immediately, in the enclosing scope (this is what makes gfor
         # "lazy except for its first iterable")
         first = [None]
-        lazy_first = h == "gfor" and self.gfor_lazy_first
+        lazy_first = h == "gfor" and self.gfor_lazy_first is True
         if cl and cl[0][0] == "iter" and not lazy_first:
-            first[0] = iter(self.ev(cl[0][2], fr))
+            first[0] = self.ev(cl[0][2], fr)
+            if not (h == "gfor" and self.gfor_lazy_first == "expr"):
+                # (mode "expr": the expression is evaluated at creation, but a value that is not iterable is only
+                # noticed at the first next(), as when the value is handed to a generator function as an argument)
+                first[0] = iter(first[0])
 
         def rec(i):
             if i == len(cl):
